@@ -34,7 +34,7 @@ def main():
                 vd = f"/tmp/seedchk/{sid}-verif"
                 os.makedirs(vd + "/evidence", exist_ok=True)
                 shutil.copy("/verif/known_findings.txt", vd)
-                p = subprocess.run([os.environ.get("SCALINT_BIN", "/verif/bin/scalint"), "-prop", prop, "-tier", "quick", "-repo", wt, "-verif", vd], env=ENV, capture_output=True, text=True)
+                p = subprocess.run([os.environ.get("SCALINT_BIN", "/verif/bin/scalint"), "-prop", prop, "-tier", "quick", "-repo", wt, "-verif", vd], env=ENV, capture_output=True, text=True, errors="replace")
                 out = p.stdout + p.stderr
                 lines = [l for l in out.splitlines() if ("violated" in l or "UNDECIDED" in l)]
                 det = p.returncode == 1 and ("VIOLATION property=" + prop) in out
